@@ -76,6 +76,10 @@ type c14Cert struct {
 	// Batch (path collect only): sizes of the consecutive groups of entries that travel in one vote message
 	// (VoteMsg.Signature is a repeated field); nil = every entry is its own vote message.
 	Batch []int `json:"batch,omitempty"`
+	// Local (paths proposal / block / block-known / vote / smr / smr-pruned): 0 = the verifying node is an outsider key
+	// (default); L > 0 = the verifying node is ring member L-1 - a validator judging a certificate that may carry an
+	// entry under ITS OWN address (the statement makes no exception for entries in the verifier's name)
+	Local int `json:"local,omitempty"`
 }
 
 const (
@@ -409,6 +413,18 @@ func c14Rules(tree *cbft.QCPendingTree) *cbft.DefaultSaftyRules {
 	return &cbft.DefaultSaftyRules{Crypto: c14CryptoOf(c14OutsiderB), QcTree: tree, Log: c14NopLog{}}
 }
 
+// c14LocalKey: ring index of the verifying node of d.
+func c14LocalKey(d c14Cert) int {
+	if d.Local > 0 && d.Local <= hx.RingSize {
+		return d.Local - 1
+	}
+	return c14OutsiderB
+}
+
+func c14RulesOf(tree *cbft.QCPendingTree, d c14Cert) *cbft.DefaultSaftyRules {
+	return &cbft.DefaultSaftyRules{Crypto: c14CryptoOf(c14LocalKey(d)), QcTree: tree, Log: c14NopLog{}}
+}
+
 func c14Justify(d c14Cert) *cbft.QuorumCert {
 	qc := &cbft.QuorumCert{
 		VoteInfo:         &cbft.VoteInfo{ProposalId: c14CertifiedID, ProposalView: 1, ParentId: c14GenesisID, ParentView: 0},
@@ -496,7 +512,7 @@ func c14Run(d c14Cert) (accepted bool, detail string, err error) {
 			}}
 			tree.Root.Sons[0].Sons = append(tree.Root.Sons[0].Sons, known)
 		}
-		rules := c14Rules(tree)
+		rules := c14RulesOf(tree, d)
 		proposal := &cbft.QuorumCert{VoteInfo: &cbft.VoteInfo{ProposalId: c14ProposalID, ProposalView: 2,
 			ParentId: c14CertifiedID, ParentView: 1}}
 		if d.Path == "proposal" {
@@ -547,8 +563,8 @@ func c14Run(d c14Cert) (accepted bool, detail string, err error) {
 			}
 		}
 		pm := &c14Pacemaker{view: 1}
-		local := c14CryptoOf(c14OutsiderB)
-		smr := cbft.NewSmr(hx.BCName, local.Address.Address, c14NopLog{}, nil, local, pm, c14Rules(tree), &c14Election{n: d.N}, tree)
+		local := c14CryptoOf(c14LocalKey(d))
+		smr := cbft.NewSmr(hx.BCName, local.Address.Address, c14NopLog{}, nil, local, pm, c14RulesOf(tree, d), &c14Election{n: d.N}, tree)
 		jb, e := json.Marshal(c14Justify(d))
 		if e != nil {
 			return false, "", e
@@ -611,7 +627,7 @@ func c14Run(d c14Cert) (accepted bool, detail string, err error) {
 		}
 		return false, fmt.Sprintf("no quorum, %d vote message(s) taken", taken), nil
 	case "vote":
-		rules := c14Rules(c14Tree())
+		rules := c14RulesOf(c14Tree(), d)
 		e := rules.CheckVote(c14Justify(d), "c14", c14Validators(d.N))
 		if e != nil {
 			return false, e.Error(), nil
@@ -623,6 +639,9 @@ func c14Run(d c14Cert) (accepted bool, detail string, err error) {
 	}
 	return false, "", fmt.Errorf("descriptor: unknown path %q", d.Path)
 }
+
+// c14LocalPaths: paths on which the descriptor's Local field chooses the verifying node.
+var c14LocalPaths = map[string]bool{"proposal": true, "block": true, "block-known": true, "smr": true, "smr-pruned": true}
 
 // c14ExtraPaths: further submission paths (consensus plugins), registered by their own section below.
 var c14ExtraPaths = map[string]func(d c14Cert) (bool, string, error){}
@@ -918,7 +937,7 @@ type c14Stats struct {
 
 func TestC14(t *testing.T) {
 	c := hx.NewCollector("C14", "exploration",
-		"exhaustive enumeration, per validator-set size n, of all multisets (size <= n+1) of quorum-certificate signature entries over the classes {valid signature of a further distinct member, same signature repeated, second valid signature of a member already present, non-member, member signing another id, corrupted member signature, member address with a foreign (non-member) key, member address with ANOTHER member's key and signature, the collector's own signature}, real P-256 signatures, submitted through CheckProposal as the smr calls it (collector known), as tdpos/xpoa CheckMinerMatch call it (collector unknown), and through Smr.handleReceivedProposal; plus CheckVote on single votes, CalVotesThreshold for all n <= 10, and random multisets (size <= n+4) for larger n. Oracle: accepted => #distinct members besides the collector with a valid signature over the certified id >= n - floor((n-1)/3) - 1. Non-trivial = the multiset contains >= 1 entry that must not count and the number of distinct valid members is exactly threshold-1 (counting the useless entry would flip the verdict); distinct = hash of (n, class multiset)",
+		"exhaustive enumeration, per validator-set size n, of all multisets (size <= n+1) of quorum-certificate signature entries over the classes {valid signature of a further distinct member, same signature repeated, second valid signature of a member already present, non-member, member signing another id, corrupted member signature, member address with a foreign (non-member) key, member address with ANOTHER member's key and signature, the collector's own signature}, real P-256 signatures, every boundary certificate judged a second time by a verifier that IS the member under whose address the first useless entry is filed (forged vote in the verifier's own name), submitted through CheckProposal as the smr calls it (collector known), as tdpos/xpoa CheckMinerMatch call it (collector unknown), and through Smr.handleReceivedProposal; plus CheckVote on single votes, CalVotesThreshold for all n <= 10, and random multisets (size <= n+4) for larger n. Oracle: accepted => #distinct members besides the collector with a valid signature over the certified id >= n - floor((n-1)/3) - 1. Non-trivial = the multiset contains >= 1 entry that must not count and the number of distinct valid members is exactly threshold-1 (counting the useless entry would flip the verdict); distinct = hash of (n, class multiset)",
 		"necessary direction only: a tree that rejects more certificates is not a violation", "view / qc-tree preconditions of CheckProposal are satisfied as in a running chain (certified proposal is in the local qc tree, views adjacent)")
 	defer c.Flush(t)
 	noExclude := os.Getenv("C14_NO_EXCLUDE") == "1"
@@ -1042,6 +1061,32 @@ func TestC14(t *testing.T) {
 			fail(test, err.Error(), d)
 			if failures >= 5 {
 				return false
+			}
+		}
+		// the same certificate judged by a VALIDATOR: the member under whose address the first entry that must not count
+		// is filed (a forged vote in the verifier's own name), on the boundary where counting it flips the verdict
+		if nontrivial && d.Local == 0 && c14LocalPaths[d.Path] {
+			for _, e := range d.Entries {
+				if e.Addr < d.N && e.Addr != d.Collector && !c14EntryValid(e) {
+					d2 := d
+					d2.Local = e.Addr + 1
+					v2, err2 := c14Eval(d2)
+					l2 := []string{"path:" + d.Path, "verifier-is-the-named-member"}
+					if v2.Accepted {
+						l2 = append(l2, "accepted")
+					} else {
+						l2 = append(l2, "rejected")
+					}
+					c.Count(map[string]interface{}{"n": d.N, "classes": *k, "local": d2.Local, "path": d.Path}, true, l2...)
+					st.evaluated[d.N]++
+					if err2 != nil {
+						fail(test, err2.Error(), d2)
+						if failures >= 5 {
+							return false
+						}
+					}
+					break
+				}
 			}
 		}
 		return true
